@@ -710,7 +710,7 @@ func (h *H) exec(who string, i int, o op) {
 			return
 		}
 		k := o.b % len(h.dtags)
-		delta := o.a%7 + 1
+		delta := o.a%9 - 2 // -2..6: negative values make DecayLinear/DecayFixed remove with a non-zero result
 		logf("Bump(%s, %s, %d)", h.dspecs[k].name, mp.name, delta)
 		if err := h.dtags[k].Bump(mp.id, delta); err != nil {
 			h.o.Trouble = "Bump: " + err.Error()
@@ -823,29 +823,63 @@ func keys(m map[string]bool) []string {
 // which the decayer applies a change (the segment lock is held and the value is stored right
 // after the function returns, with no scheduling point in between).
 
+// Decay functions: the exported presets plus harness ones. Several REMOVE the tag while returning
+// a non-zero "after" (DecayFixed crossing zero, DecayLinear on negative values, "overshoot"): on
+// removal the tag's whole current value leaves the peer's total, whatever "after" says.
+var decayNames = []string{"v-1 (rm at <=0)", "v/2 (rm at <=0)", "DecayFixed(3)", "DecayLinear(0.5)", "DecayNone", "DecayExpireWhenInactive(-25s)", "v-4, rm when <2 (overshoot)"}
+var bumpNames = []string{"v+d", "min(v+d,9)", "BumpOverwrite", "BumpSumBounded(-5,12)"}
+
 func (h *H) decayFn(sp *dtagSpec) coreconnmgr.DecayFn {
+	var inner coreconnmgr.DecayFn
+	switch sp.decayK {
+	case 0:
+		inner = func(v coreconnmgr.DecayingValue) (int, bool) { return v.Value - 1, v.Value-1 <= 0 }
+	case 1:
+		inner = func(v coreconnmgr.DecayingValue) (int, bool) { return v.Value / 2, v.Value/2 <= 0 }
+	case 2:
+		inner = coreconnmgr.DecayFixed(3)
+	case 3:
+		inner = coreconnmgr.DecayLinear(0.5)
+	case 4:
+		inner = coreconnmgr.DecayNone()
+	case 5:
+		// removes iff the value was visited within the last 25 s of (virtual) time, else sets it to 0
+		inner = coreconnmgr.DecayExpireWhenInactive(-25 * time.Second)
+	default:
+		inner = func(v coreconnmgr.DecayingValue) (int, bool) { return v.Value - 4, v.Value-4 < 2 }
+	}
 	return func(v coreconnmgr.DecayingValue) (int, bool) {
 		h.touch()
-		var after int
-		if sp.decayK == 0 {
-			after = v.Value - 1
-		} else {
-			after = v.Value / 2
-		}
-		rm := after <= 0
+		after, rm := inner(v)
 		h.o.Probe("decay-tick-applied")
+		if rm && after != 0 {
+			h.o.Probe("decay-removed-with-nonzero-after")
+		}
 		h.applied(v.Peer, sp, v.Value, after, rm, "decay")
 		return after, rm
 	}
 }
 
 func (h *H) bumpFn(sp *dtagSpec) coreconnmgr.BumpFn {
+	var inner coreconnmgr.BumpFn
+	switch sp.bumpK {
+	case 0:
+		inner = coreconnmgr.BumpSumUnbounded()
+	case 1:
+		inner = func(v coreconnmgr.DecayingValue, delta int) int {
+			if v.Value+delta > 9 {
+				return 9
+			}
+			return v.Value + delta
+		}
+	case 2:
+		inner = coreconnmgr.BumpOverwrite()
+	default:
+		inner = coreconnmgr.BumpSumBounded(-5, 12)
+	}
 	return func(v coreconnmgr.DecayingValue, delta int) int {
 		h.touch()
-		after := v.Value + delta
-		if sp.bumpK == 1 && after > 9 {
-			after = 9
-		}
+		after := inner(v, delta)
 		h.o.Probe("bump-applied")
 		h.applied(v.Peer, sp, v.Value, after, false, "bump")
 		return after
@@ -1113,7 +1147,7 @@ func run(t *testing.T, tape *simrt.Tape) *common.Outcome {
 	}
 	nD := g.Int(3)
 	for i := 0; i < nD; i++ {
-		h.dspecs = append(h.dspecs, &dtagSpec{name: fmt.Sprintf("d%d", i), mult: g.Range(1, 2), decayK: g.Int(2), bumpK: g.Int(2)})
+		h.dspecs = append(h.dspecs, &dtagSpec{name: fmt.Sprintf("d%d", i), mult: g.Range(1, 2), decayK: g.Int(len(decayNames)), bumpK: g.Int(len(bumpNames))})
 	}
 	all := make([]int, nPeers)
 	for i := range all {
@@ -1161,7 +1195,7 @@ func run(t *testing.T, tape *simrt.Tape) *common.Outcome {
 		o.Logf(" %s id=%q", mp.name, string(mp.id))
 	}
 	for _, sp := range h.dspecs {
-		o.Logf(" %s interval=%dx resolution decay=%s bump=%s", sp.name, sp.mult, []string{"v-1", "v/2"}[sp.decayK], []string{"v+d", "min(v+d,9)"}[sp.bumpK])
+		o.Logf(" %s interval=%dx resolution decay=%s bump=%s", sp.name, sp.mult, decayNames[sp.decayK], bumpNames[sp.bumpK])
 	}
 
 	finished := false
